@@ -85,3 +85,12 @@ chk("C07", "static analysis: exact value sets, bit-provenance abstract interpret
     "boundary search opaque, and the two boundary searches are checked as one-iteration relations (move by one, stop on the "
     "forgiving boundary predicate decided in C03). Covers every char/u32 and all strings symbolically.",
     "Trusted: rustc MIR; char <= 10FFFF type invariant. The boundary-search loops are decided as one-iteration relations only.")
+chk("C06", "static analysis: one-step MIR transition tables vs std's SplitInternal step, forward/reverse isomorphism",
+    "Split::next/next_back, SplitTerminator::next and RSplitTerminator::next are compared as one-step transition tables over "
+    "(state Normal/Empty(Start)/Empty(Continue)/Finished, remainder empty, find/rfind Some/None) with std's split step "
+    "(yielded piece, new remainder around the delimiter, new state; empty-delimiter mode char by char; the documented "
+    "mirrored rule for rsplit_terminator); RSplit must be Split stepping from the other end; constructors must pick "
+    "Empty(Start) exactly for an empty delimiter; rsplit = split.rev(), rsplit_terminator copies split_terminator's fields, "
+    "remainder() returns the remainder field. Symbolic in string and delimiter.",
+    "Trusted: rustc MIR. The sequence of pieces follows from the one-step tables by the simulation argument in DESIGN.md "
+    "App. D (not mechanised); find/rfind are C04, the boundary search is C07.")
